@@ -826,6 +826,11 @@ class TranscriptInterval(AbstractFeatureInterval):
             NoSuchAncestorException: If ``chromosome_relative_coordinates`` is ``False`` but there is no
             ``sequence_chunk`` ancestor type.
         """
+        if not chromosome_relative_coordinates and not self.has_ancestor_of_type(SequenceType.SEQUENCE_CHUNK):
+            raise NoSuchAncestorException(
+                "Cannot export BED in relative coordinates without a sequence_chunk ancestor."
+            )
+
         if chromosome_relative_coordinates:
             blocks = list(zip(self._genomic_starts, self._genomic_ends))
             num_blocks = len(self._genomic_starts)
